@@ -16,10 +16,12 @@ package control
 // against the Lean model driver c08drv.  One op per line; see lean/DaeVerif/C08/Main.lean.
 
 import (
+	"context"
 	"encoding/hex"
 	"fmt"
 	"net"
 	"net/netip"
+	"reflect"
 	"runtime"
 	"sort"
 	"strings"
@@ -28,6 +30,7 @@ import (
 	"testing"
 	"testing/synctest"
 	"time"
+	"unsafe"
 
 	"github.com/daeuniverse/dae/common/consts"
 	"github.com/daeuniverse/dae/config"
@@ -219,25 +222,35 @@ func c08SleepUntil(t int64) {
 	}
 }
 
-// c08Records builds the answer / authority sections of an upstream reply.
-func c08Records(fq string, qtype uint16, rttl uint32, ans, n, ns int) (answers, nsec []dnsmessage.RR) {
+// c08Records builds the answer / authority / additional sections of an upstream reply.  Only the
+// FIRST answer carries rttl; the others (and the other sections) carry a different TTL, as in CNAME
+// chains or glue records — the cache must not care.
+func c08Records(fq string, qtype uint16, rttl uint32, ans, n, ns int) (answers, nsec, extra []dnsmessage.RR) {
+	other := rttl*3 + 7
 	for i := 0; i < n; i++ {
 		id := ans + i
+		ttl := rttl
+		if i > 0 {
+			ttl = other
+		}
 		if qtype == dnsmessage.TypeAAAA {
 			ip := net.ParseIP("2001:db8::")
 			ip[14], ip[15] = byte(id>>8), byte(id)
-			answers = append(answers, &dnsmessage.AAAA{Hdr: dnsmessage.RR_Header{Name: fq, Rrtype: dnsmessage.TypeAAAA, Class: dnsmessage.ClassINET, Ttl: rttl}, AAAA: ip})
+			answers = append(answers, &dnsmessage.AAAA{Hdr: dnsmessage.RR_Header{Name: fq, Rrtype: dnsmessage.TypeAAAA, Class: dnsmessage.ClassINET, Ttl: ttl}, AAAA: ip})
 		} else {
-			answers = append(answers, &dnsmessage.A{Hdr: dnsmessage.RR_Header{Name: fq, Rrtype: dnsmessage.TypeA, Class: dnsmessage.ClassINET, Ttl: rttl}, A: net.IPv4(10, 9, byte(id>>8), byte(id)).To4()})
+			answers = append(answers, &dnsmessage.A{Hdr: dnsmessage.RR_Header{Name: fq, Rrtype: dnsmessage.TypeA, Class: dnsmessage.ClassINET, Ttl: ttl}, A: net.IPv4(10, 9, byte(id>>8), byte(id)).To4()})
 		}
 	}
-	switch ns {
-	case 1:
-		nsec = append(nsec, &dnsmessage.SOA{Hdr: dnsmessage.RR_Header{Name: "test.", Rrtype: dnsmessage.TypeSOA, Class: dnsmessage.ClassINET, Ttl: rttl},
+	if ns == 1 || ns == 4 {
+		nsec = append(nsec, &dnsmessage.SOA{Hdr: dnsmessage.RR_Header{Name: "test.", Rrtype: dnsmessage.TypeSOA, Class: dnsmessage.ClassINET, Ttl: other + 1},
 			Ns: "ns.test.", Mbox: "h.test.", Serial: 1, Refresh: 2, Retry: 3, Expire: 4, Minttl: 5})
-	case 2: // a record dns.Msg.Pack refuses: prepackResponseBeforeStore fails, the entry is stored without packed bytes
-		nsec = append(nsec, &dnsmessage.TXT{Hdr: dnsmessage.RR_Header{Name: "test.", Rrtype: dnsmessage.TypeTXT, Class: dnsmessage.ClassINET, Ttl: rttl},
+	}
+	if ns == 2 { // a record dns.Msg.Pack refuses: prepackResponseBeforeStore fails, the entry is stored without packed bytes
+		nsec = append(nsec, &dnsmessage.TXT{Hdr: dnsmessage.RR_Header{Name: "test.", Rrtype: dnsmessage.TypeTXT, Class: dnsmessage.ClassINET, Ttl: other},
 			Txt: []string{strings.Repeat("x", 300)}})
+	}
+	if ns == 3 || ns == 4 { // glue in the additional section, with a long TTL of its own
+		extra = append(extra, &dnsmessage.A{Hdr: dnsmessage.RR_Header{Name: "ns.test.", Rrtype: dnsmessage.TypeA, Class: dnsmessage.ClassINET, Ttl: 86400}, A: net.IPv4(192, 0, 2, 53).To4()})
 	}
 	return
 }
@@ -252,12 +265,12 @@ func (w *c08World) ins(t int64, key, host string, qtype uint16, ttl int, ans, n,
 	_, ipErr := netip.ParseAddr(strings.TrimSuffix(host, "."))
 	op := fmt.Sprintf("ins t=%d key=%s host=%s qtype=%d ttl=%d ans=%d n=%d ns=%d ip=%s", t, c08Hex(key), c08Hex(host), qtype, ttl, ans, n, ns, c08B(ipErr == nil))
 	out := VRecover(func() string {
-		answers, nsec := c08Records(c08Fqdn(host), qtype, 77, ans, n, ns)
+		answers, nsec, extra := c08Records(c08Fqdn(host), qtype, 77, ans, n, ns)
 		var err error
 		if key == "" {
-			err = w.c.UpdateDnsCacheTtl(host, qtype, answers, nsec, nil, ttl)
+			err = w.c.UpdateDnsCacheTtl(host, qtype, answers, nsec, extra, ttl)
 		} else {
-			err = w.c.UpdateDnsCacheTtlWithKey(key, host, qtype, answers, nsec, nil, ttl)
+			err = w.c.UpdateDnsCacheTtlWithKey(key, host, qtype, answers, nsec, extra, ttl)
 		}
 		if err != nil {
 			return "err:" + err.Error()
@@ -269,15 +282,22 @@ func (w *c08World) ins(t int64, key, host string, qtype uint16, ttl int, ans, n,
 
 // insn: NormalizeAndCacheDnsResp_ on an upstream reply (the call dialSend makes)
 func (w *c08World) insn(t int64, key, host string, qtype uint16, rttl uint32, ans, n, ns, rcode int) {
+	w.insnMsg(t, key, host, qtype, rttl, ans, n, ns, rcode, true, 1)
+}
+
+// insnMsg: resp = the header's QR bit, nq = number of questions (0 or 1)
+func (w *c08World) insnMsg(t int64, key, host string, qtype uint16, rttl uint32, ans, n, ns, rcode int, resp bool, nq int) {
 	w.sleepUntil(t)
 	_, ipErr := netip.ParseAddr(strings.TrimSuffix(host, "."))
-	op := fmt.Sprintf("insn t=%d key=%s host=%s qtype=%d rttl=%d ans=%d n=%d ns=%d rcode=%d ip=%s", t, c08Hex(key), c08Hex(host), qtype, rttl, ans, n, ns, rcode, c08B(ipErr == nil))
+	op := fmt.Sprintf("insn t=%d key=%s host=%s qtype=%d rttl=%d ans=%d n=%d ns=%d rcode=%d ip=%s resp=%s nq=%d", t, c08Hex(key), c08Hex(host), qtype, rttl, ans, n, ns, rcode, c08B(ipErr == nil), c08B(resp), nq)
 	out := VRecover(func() string {
-		answers, nsec := c08Records(c08Fqdn(host), qtype, rttl, ans, n, ns)
+		answers, nsec, extra := c08Records(c08Fqdn(host), qtype, rttl, ans, n, ns)
 		msg := &dnsmessage.Msg{
-			MsgHdr:   dnsmessage.MsgHdr{Id: 4242, Response: true, Rcode: rcode, RecursionDesired: true, RecursionAvailable: true},
-			Question: []dnsmessage.Question{{Name: host, Qtype: qtype, Qclass: dnsmessage.ClassINET}},
-			Answer:   answers, Ns: nsec,
+			MsgHdr: dnsmessage.MsgHdr{Id: 4242, Response: resp, Rcode: rcode, RecursionDesired: true, RecursionAvailable: true},
+			Answer: answers, Ns: nsec, Extra: extra,
+		}
+		if nq > 0 {
+			msg.Question = []dnsmessage.Question{{Name: host, Qtype: qtype, Qclass: dnsmessage.ClassINET}}
 		}
 		if err := w.c.NormalizeAndCacheDnsResp_(msg, key); err != nil {
 			return "err:" + err.Error()
@@ -322,7 +342,7 @@ func (w *c08World) lookupRaw(key, qname string, qtype uint16, ign bool) c08Hit {
 	}
 	ttl := "-"
 	first := true
-	for _, sec := range [][]dnsmessage.RR{m.Answer, m.Ns} {
+	for _, sec := range [][]dnsmessage.RR{m.Answer, m.Ns, m.Extra} {
 		for _, rr := range sec {
 			v := fmt.Sprint(rr.Header().Ttl)
 			if first {
@@ -463,21 +483,41 @@ func (c c08Cfg) dnsSection() *config.Dns {
 // built from the PRODUCTION option builder (*ControlPlane).dnsControllerOption().
 func (w *c08World) c08NewPlane(d *config.Dns) (*ControlPlane, error) {
 	plane := &ControlPlane{log: w.log}
+	plane.ctx, plane.cancel = context.WithCancel(context.Background())
 	fixedDomainTtl, err := ParseFixedDomainTtl(d.FixedDomainTtl)
 	if err != nil {
 		return nil, err
 	}
 	plane.dnsFixedDomainTtl = fixedDomainTtl
-	plane.dnsOptimisticCache = d.OptimisticCache
-	plane.dnsOptimisticCacheTtl = d.OptimisticCacheTtl
-	plane.dnsMaxCacheSize = d.MaxCacheSize
-	plane.dnsIpVersionPrefer = d.IpVersionPrefer
-	plane.dnsController, err = NewDnsController(nil, plane.dnsControllerOption())
+	// the cache-behaviour fields of the control plane (set by name so that this harness also builds
+	// against a tree that does not have them)
+	c08SetField(plane, "dnsOptimisticCache", d.OptimisticCache)
+	c08SetField(plane, "dnsOptimisticCacheTtl", d.OptimisticCacheTtl)
+	c08SetField(plane, "dnsMaxCacheSize", d.MaxCacheSize)
+	c08SetField(plane, "dnsIpVersionPrefer", d.IpVersionPrefer)
+	opt := plane.dnsControllerOption()
+	if !c08HasField(plane, "dnsOptimisticCache") {
+		// older shape of NewControlPlane: the values are patched onto the freshly built option
+		opt.OptimisticCache, opt.OptimisticCacheTtl, opt.MaxCacheSize = d.OptimisticCache, d.OptimisticCacheTtl, d.MaxCacheSize
+	}
+	plane.dnsController, err = NewDnsController(nil, opt)
 	if err != nil {
 		return nil, err
 	}
 	c08DetachCallbacks(plane.dnsController)
 	return plane, nil
+}
+
+func c08HasField(plane *ControlPlane, name string) bool {
+	return reflect.ValueOf(plane).Elem().FieldByName(name).IsValid()
+}
+
+func c08SetField(plane *ControlPlane, name string, val any) {
+	f := reflect.ValueOf(plane).Elem().FieldByName(name)
+	if !f.IsValid() {
+		return
+	}
+	reflect.NewAt(f.Type(), unsafe.Pointer(f.UnsafeAddr())).Elem().Set(reflect.ValueOf(val))
 }
 
 // c08DetachCallbacks replaces, in the runtime the production code installed, only the callbacks that
@@ -542,6 +582,7 @@ func (w *c08World) cpReload(cfg c08Cfg) {
 			}
 			c08DetachCallbacks(prevCtl)
 			c08DetachCallbacks(plane.dnsController)
+			w.plane.cancel() // the previous generation retires: its lifecycle context ends
 			w.plane, w.dnsConf, w.c = plane, d, plane.dnsController
 			return "reconf " + w.cfgObserved()
 		})
@@ -558,6 +599,7 @@ func (w *c08World) cpReload(cfg c08Cfg) {
 		base := time.Now().UnixNano()
 		n := plane.dnsController.RestoreReloadCache(clones, nil, time.Now())
 		_ = w.plane.dnsController.Close()
+		w.plane.cancel()
 		w.plane, w.dnsConf, w.c = plane, d, plane.dnsController
 		w.tickBase = base
 		return fmt.Sprintf("reload %s n=%d", w.cfgObserved(), n)
@@ -694,8 +736,8 @@ func c08NameVariant(r *VRand, stats *VStats, base string) string {
 
 func c08RandCfg(r *VRand, stats *VStats) c08Cfg {
 	cfg := c08Cfg{opt: r.Bool()}
-	cfg.stale = []int{0, 0, 1, 2, 5, 60, 60, 300}[r.Intn(8)]
-	cfg.max = []int{0, 0, 0, 1, 2, 3, 5}[r.Intn(7)]
+	cfg.stale = []int{0, 0, 1, 2, 5, 60, 60, 300, 60, 5, 1, -1}[r.Intn(12)]
+	cfg.max = []int{0, 0, 0, 1, 2, 3, 5, 0, 2, 3, -1}[r.Intn(11)]
 	switch r.Intn(4) {
 	case 0:
 	case 1:
@@ -703,15 +745,18 @@ func c08RandCfg(r *VRand, stats *VStats) c08Cfg {
 	case 2:
 		cfg.fixed = []c08Fixed{{"a.test", 0}, {"ddns.example.org", 3600}}
 	case 3:
-		cfg.fixed = []c08Fixed{{"b.test", 1}, {"DDNS.example.org", 5}, {"t", 30}, {"B.Test", 2}}
+		cfg.fixed = []c08Fixed{{"b.test", 1}, {"DDNS.example.org", 5}, {"t", 30}, {"B.Test", 2}, {"www.x-y.example.com", -3}}
 	}
 	stats.Inc(fmt.Sprintf("cfg.opt=%s,stale%s,max%s,fixed%s", c08B(cfg.opt), c08Cls(cfg.stale), c08Cls(cfg.max), c08Cls(len(cfg.fixed))))
 	return cfg
 }
 
 func c08Cls(n int) string {
-	if n == 0 {
+	switch {
+	case n == 0:
 		return "=0"
+	case n < 0:
+		return "<0"
 	}
 	return ">0"
 }
@@ -866,6 +911,11 @@ func c08History(t *testing.T, r *VRand, st *VStream, stats *VStats, log *logrus.
 		}
 		now := time.Now().UnixNano()
 		ansCounter := r.Intn(1000)
+		ignP := 0.08
+		if r.Chance(0.15) {
+			ignP = 0.3 // a history in which many callers ignore the fixed TTL
+			stats.Inc("history.ignore_fixed_ttl_heavy")
+		}
 		for i := 0; i < nOps; i++ {
 			next := c08NextTime(r, stats, now, cfg, sh)
 			if cp && next-now > 20*c08JanitorPeriod {
@@ -885,18 +935,26 @@ func c08History(t *testing.T, r *VRand, st *VStream, stats *VStats, log *logrus.
 			case x < 30: // insert
 				ansCounter++
 				n := []int{1, 1, 1, 2, 3, 0}[r.Intn(6)]
-				ns := []int{0, 0, 0, 1, 1, 2}[r.Intn(6)]
+				ns := []int{0, 0, 0, 1, 1, 2, 3, 4}[r.Intn(8)]
 				var ttl int64
 				host := name
 				if r.Bool() {
 					rttl := []uint32{0, 1, 2, 5, 14, 15, 16, 17, 18, 30, 31, 32, 33, 47, 60, 120, 300, 3600, 86400, 40000000}[r.Intn(20)]
-					rcode := 0
-					if r.Chance(0.05) {
+					rcode, resp, nq := 0, true, 1
+					switch r.Intn(40) {
+					case 0, 1:
 						rcode = 3
+					case 2:
+						rcode = 2
+					case 3:
+						resp = false
+					case 4:
+						nq = 0
 					}
-					w.insn(now, key, host, sl.qtype, rttl, ansCounter, n, ns, rcode)
+					w.insnMsg(now, key, host, sl.qtype, rttl, ansCounter, n, ns, rcode, resp, nq)
 					stats.Inc("op.insn")
-					if rcode != 0 {
+					if rcode != 0 || !resp || nq == 0 {
+						stats.Inc("insert.not_cacheable_reply")
 						continue
 					}
 					ttl = int64(rttl)
@@ -936,7 +994,7 @@ func c08History(t *testing.T, r *VRand, st *VStream, stats *VStats, log *logrus.
 				}
 				setShadow(c08Shadow{key: key, qname: name, qtype: sl.qtype, ins: now, deadline: now + eff*c08Sec, pttl: p})
 			case x < 75: // lookup
-				ign := r.Chance(0.08)
+				ign := r.Chance(ignP)
 				w.classify(cfg, sh, key, now)
 				h := w.look(now, key, name, sl.qtype, ign)
 				stats.Inc("op.look")
